@@ -111,9 +111,17 @@ pub fn case_for(ts: &TokenStream) -> (Sx, String) {
         Ok(Ok(items)) => {
             // print and re-parse: must be the identity on the item list
             let printed = quote::quote!(#(#items),*);
-            let again = NestedMeta::parse_meta_list(printed).ok().map(|v| v.iter().map(|i| toks(i)).collect::<Vec<_>>());
+            // compared structurally (syn's `PartialEq`: the same tokens may parse to another tree) and as printed
+            let reparsed = NestedMeta::parse_meta_list(printed).ok();
+            let again = reparsed.as_ref().map(|v| v.iter().map(|i| toks(i)).collect::<Vec<_>>());
             let orig: Vec<String> = items.iter().map(|i| toks(i)).collect();
-            if again.as_ref() != Some(&orig) {
+            let same_tree = |a: &NestedMeta, b: &NestedMeta| match (a, b) {
+                (NestedMeta::Lit(x), NestedMeta::Lit(y)) => x == y,
+                (NestedMeta::Meta(x), NestedMeta::Meta(y)) => x == y,
+                _ => false,
+            };
+            let same = reparsed.as_ref().map_or(false, |v| v.len() == items.len() && v.iter().zip(items.iter()).all(|(a, b)| same_tree(a, b)));
+            if again.as_ref() != Some(&orig) || !same {
                 "(roundtrip-differs)".to_string()
             } else {
                 tagged(
